@@ -1,0 +1,42 @@
+//go:build verif
+
+package dispatch
+
+import (
+	"github.com/uber/kraken/core"
+	"github.com/uber/kraken/lib/torrent/scheduler/conn"
+	"github.com/willf/bitset"
+)
+
+// VerifPeer is an opaque handle on a peer registered with VerifAddPeer.
+type VerifPeer struct{ p *peer }
+
+// VerifAddPeer registers a peer exactly like AddPeer but without starting the
+// feed and request goroutines, so that the verification harness can deliver
+// messages synchronously with VerifDispatch (a panic then surfaces in the caller
+// instead of killing the process from a background goroutine).
+func (d *Dispatcher) VerifAddPeer(
+	peerID core.PeerID, isPeerOrigin bool, b *bitset.BitSet, messages Messages) (*VerifPeer, error) {
+
+	p, err := d.addPeer(peerID, isPeerOrigin, b, messages)
+	if err != nil {
+		return nil, err
+	}
+	return &VerifPeer{p}, nil
+}
+
+// VerifDispatch handles one message from the peer on the calling goroutine, as the feed loop would.
+func (d *Dispatcher) VerifDispatch(p *VerifPeer, msg *conn.Message) error {
+	return d.dispatch(p.p, msg)
+}
+
+// VerifRequestMore runs the piece request step AddPeer performs for a new peer.
+func (d *Dispatcher) VerifRequestMore(p *VerifPeer) error {
+	_, err := d.maybeRequestMorePieces(p.p)
+	return err
+}
+
+// VerifRemovePeer removes the peer as the feed loop does when its messages close.
+func (d *Dispatcher) VerifRemovePeer(p *VerifPeer) error {
+	return d.removePeer(p.p)
+}
